@@ -483,6 +483,43 @@ def rule_move_file(ctx, p, cfg, rid="R5"):
 
 
 
+def rule_one_rotation_at_a_time(ctx, p, cfg, rid="R14"):
+    """background rotation: roll() hands the staged file to a worker thread.  Two workers must never be queued at once (the
+    mutex is not fair: the later one could shift the window first and the archives would be out of order), so roll() itself
+    waits for the `ready` flag and lowers it before it spawns the worker; the worker raises it when it is done."""
+    with ctx.rule(rid, "one background rotation at a time, in roll order", cfg) as r:
+        f = p.fn(ROLL_IMPL)
+        sp = [c for c in f.calls() if (c.callee or "").startswith("std::thread::") and (c.callee or "").rsplit("::", 1)[-1] in ("spawn", "spawn_scoped", "spawn_unchecked")]
+        if not sp:
+            r.ok("no-worker-thread", fn=f, detail="this configuration rotates in the calling thread")
+            return
+        r.require(len(sp) == 1, "one-spawn-site", fn=f, detail="thread::spawn sites in roll(): %d" % len(sp))
+
+        def flag_stores(g, value):
+            out = []
+            for b, i, s in g.assigns():
+                rv = s["rv"]
+                if rv["k"] == "use" and "const" in rv["a"] and rv["a"]["const"].get("kind") == "bool" and bool(rv["a"]["const"].get("value")) == value and s["lhs"]["p"]:
+                    base = g.local_expr(s["lhs"]["l"])
+                    if any(x[0] == "call" and x[1].rsplit("::", 1)[-1] in ("lock", "deref_mut") for x in walk(base)):
+                        out.append(b)
+            return out
+        low = flag_stores(f, False)
+        r.require(bool(low) and any(f.dominates(b, sp[0].block) for b in low), "flag-lowered-before-the-worker-is-spawned", fn=f, site=sp[0].at,
+                  detail="roll() stores `false` through the guard on every path to thread::spawn",
+                  fail_detail="roll() does not lower the ready flag itself before spawning: a second roll arriving before the worker has taken the lock finds the flag still raised and queues a second worker; the two can run in either order")
+        waits = [c for c in f.calls() if (c.callee or "").rsplit("::", 1)[-1] in ("wait", "wait_while", "wait_for", "wait_until")]
+        r.require(bool(waits) and all(f.can_reach(c.block, sp[0].block) for c in waits), "waits-for-the-previous-rotation", fn=f, detail="Condvar wait sites before the spawn: %d" % len(waits))
+        clos = [g for g in p.fns.values() if g.d.get("closure_of") == f.path and any((c.callee or "") == roles(p)["rotate"].path for c in g.calls())]
+        if r.require(len(clos) == 1, "worker-closure", fn=f, detail="closure calling rotate(): %d" % len(clos)):
+            g = clos[0]
+            up = flag_stores(g, True)
+            rc = [c for c in g.calls() if c.callee == roles(p)["rotate"].path]
+            r.require(bool(up) and not q.skipping_paths(g, rc[0].block, up, set(g.return_blocks())), "worker-raises-the-flag-when-done", fn=g,
+                      detail="after rotate() every path to the closure's end stores `true` through the guard")
+            r.require(not flag_stores(g, False), "worker-does-not-lower-the-flag", fn=g, detail="the flag is lowered by roll(), not by the worker")
+
+
 def run_cfg(ctx, p, cfg):
     feats = set(p.meta.get("features", []))
     bg = "background_rotation" in feats
@@ -492,6 +529,7 @@ def run_cfg(ctx, p, cfg):
     rule_final_step(ctx, p, cfg, "R3")
     rule_roll_moves_file(ctx, p, cfg, "R11")
     rule_staging_name(ctx, p, cfg, "R12")
+    rule_one_rotation_at_a_time(ctx, p, cfg, "R14")
     rule_archive_writes_surface(ctx, p, cfg, "R13")
 
     rule_directories(ctx, p, cfg, "R10")
